@@ -80,12 +80,20 @@ type c18Dep struct {
 	Constraint string `json:"constraint"`
 }
 
+// a constraint string and the version strings it is checked against (nil: the case's CVers)
+type c18CPair struct {
+	Constraint string   `json:"c"`
+	Versions   []string `json:"vs,omitempty"`
+}
+
 type c18Case struct {
-	File c18File     `json:"file"`
-	Gets []c18Get    `json:"gets"`
-	Tags []c18TagQ   `json:"tags"`
-	Res  [][]c18Dep  `json:"res"`
-	Cmps [][2]string `json:"cmps"`
+	File   c18File     `json:"file"`
+	Gets   []c18Get    `json:"gets"`
+	Tags   []c18TagQ   `json:"tags"`
+	Res    [][]c18Dep  `json:"res"`
+	Cmps   [][2]string `json:"cmps"`
+	CVers  []string    `json:"cvers,omitempty"`  // shared version list of the enumerated constraints
+	CPairs []c18CPair  `json:"cpairs,omitempty"` // constraint language: NewConstraint / Check vs the model
 }
 
 // ---- observation ----
@@ -135,6 +143,12 @@ type c18OCmp struct {
 	Cmp *int    `json:"cmp,omitempty"`
 }
 
+// NewConstraint(c) succeeded, and Check per version: '1' / '0', '-' for an unparsable version
+type c18OCPair struct {
+	Valid bool   `json:"valid"`
+	Bits  string `json:"bits,omitempty"`
+}
+
 type c18Obs struct {
 	LoadKind string                     `json:"load"` // ok empty noapi err panic
 	Idx      []c18OChart                `json:"idx,omitempty"`
@@ -144,6 +158,7 @@ type c18Obs struct {
 	Cmps     []c18OCmp                  `json:"cmps,omitempty"`
 	CValid   map[string]bool            `json:"cvalid"`
 	Sat      map[string]map[string]bool `json:"sat"`
+	CPairs   []c18OCPair                `json:"cpairs,omitempty"`
 	Panic    string                     `json:"panic,omitempty"`
 }
 
@@ -344,6 +359,43 @@ func (*c18) Execute(ci any) (res any) {
 			}
 		}
 		obs.Sat[cs] = row
+	}
+	// the constraint language itself
+	shared := make([]*semver.Version, len(c.CVers))
+	for i, vs := range c.CVers {
+		if v, err := semver.NewVersion(vs); err == nil {
+			shared[i] = v
+		}
+	}
+	for _, p := range c.CPairs {
+		o := c18OCPair{}
+		k, err := semver.NewConstraint(p.Constraint)
+		if err == nil {
+			o.Valid = true
+			vers := shared
+			if p.Versions != nil {
+				vers = make([]*semver.Version, len(p.Versions))
+				for i, vs := range p.Versions {
+					if v, err := semver.NewVersion(vs); err == nil {
+						vers[i] = v
+					}
+				}
+			}
+			b := make([]byte, len(vers))
+			for i, v := range vers {
+				switch {
+				case v == nil:
+					b[i] = '-'
+				case k.Check(v):
+					b[i] = '1'
+				default:
+					b[i] = '0'
+				}
+			}
+			o.Bits = string(b)
+		}
+		obs.CPairs = append(obs.CPairs, o)
+		c18CountShape(p.Constraint, o)
 	}
 
 	// load
@@ -916,12 +968,40 @@ func (*c18) CoqCase(ci, oi any) string {
 		}
 		cmps = append(cmps, fmt.Sprintf("mkCmp %s %s %s", c18CoqVer(oc.A), c18CoqVer(oc.B), r))
 	}
-	return fmt.Sprintf("mkCase %s\n  %s\n  %s\n  %s\n  %s\n  %s\n  %s\n  %s", file, hx.CoqList(cvalid), hx.CoqList(sat), load,
-		hx.CoqList(gets), hx.CoqList(tags), hx.CoqList(ress), hx.CoqList(cmps))
+	var cfix, cpairs []string
+	for i, p := range c.CPairs {
+		if i >= len(obs.CPairs) {
+			break
+		}
+		o := "None"
+		if obs.CPairs[i].Valid {
+			o = "(Some " + hx.CoqStr(obs.CPairs[i].Bits) + ")"
+		}
+		if p.Versions == nil {
+			cfix = append(cfix, hx.CoqPair(hx.CoqStr(p.Constraint), o))
+		} else {
+			cpairs = append(cpairs, fmt.Sprintf("(%s, %s, %s)", hx.CoqStr(p.Constraint), hx.CoqStrList(p.Versions), o))
+		}
+	}
+	return fmt.Sprintf("mkCase %s\n  %s\n  %s\n  %s\n  %s\n  %s\n  %s\n  %s\n  %s\n  %s\n  %s", file, hx.CoqList(cvalid), hx.CoqList(sat), load,
+		hx.CoqList(gets), hx.CoqList(tags), hx.CoqList(ress), hx.CoqList(cmps), hx.CoqStrList(c.CVers), hx.CoqList(cfix), hx.CoqList(cpairs))
+}
+
+// distribution of the constraint strings given to NewConstraint / Check (report: extra)
+var c18Shapes = map[string]int{}
+
+func c18CountShape(s string, o c18OCPair) {
+	c18Shapes[c18CShape(s, o.Valid)]++
+	c18Shapes["cells"] += len(o.Bits)
+	c18Shapes["cells-satisfied"] += strings.Count(o.Bits, "1")
+	hx.Extra["constraint_language"] = c18Shapes
 }
 
 func (*c18) Class(ci, oi any) string {
 	c := ci.(c18Case)
+	if len(c.CVers) > 0 {
+		return "constraint-enumeration"
+	}
 	cl := c.File.Mode
 	if (c.File.Mode == "yaml" || c.File.Mode == "json") && c.File.API == "" {
 		cl += "-noapi"
